@@ -63,4 +63,6 @@ def harnesses():
         out.append(H("c09_invalid_base_%d" % b, "C09", "c09::invalid_base::<%d,%d>" % (b, l), unwind=l + 3, tier="quick",
                      inst="Uint<%d,%d>" % (b, l), domain="base 0 or 1, one arbitrary digit", free_bits=66,
                      fns=["from_base_le", "from_base_be"]))
+    # formatting (c09::fmt_pow2 with Formatter::pad_integral replaced by stubs::pad_integral_model) was probed at 8 bits:
+    # CBMC exhausts 14 GB after ~10 min inside core::fmt::write / the u64 formatting impls - not registered
     return out
